@@ -39,7 +39,7 @@ def wild(draw):
     feats = []
     for (_n, p), k in zip(case["params"], case["kinds"]):
         if draw(st.integers(0, 3)) == 0:
-            ph = draw(st.sampled_from(TRIGGER_PHRASES + ["defaults to 10", "defaults to 'abc'", "defaults to True", "path"]))
+            ph = draw(st.sampled_from(TRIGGER_PHRASES + ["defaults to 10", "defaults to 'abc'", "defaults to True", "path", "a int/float", "the input/output"]))
             base = (p.get("doc") or "alpha").rstrip(".")
             shape = draw(st.sampled_from(["mid", "end-comma", "own-sentence", "start"]))
             p["doc"] = {"mid": "%s %s %s" % (base, ph, draw(st.sampled_from(WORDS))), "end-comma": "%s, %s" % (base, ph), "own-sentence": "%s. %s." % (base, ph[0].upper() + ph[1:]), "start": "%s %s" % (ph, base)}[shape]
@@ -139,7 +139,7 @@ TYPE_TRIGGERS = ("number", "whether", "list of", "string or", "path", "true if",
 DOC_FORMATS = ("doc_rest", "doc_google", "doc_numpydoc", "class", "pydantic", "function", "funcdoc", "argparse")
 
 
-def param_taints(p, fmt=None):
+def param_taints(p, fmt=None, forced_default=False):
     """relaxable classes of ONE parameter IN ONE FORMAT, decided on the input alone -> {finding id}.
     P47 is narrow (measured on the unchanged tree, see DESIGN 8.7): a description is only unstable when
       U1 a `default(s) to|is|: X` fragment stands at the very start or is followed by further words of the same
@@ -147,7 +147,8 @@ def param_taints(p, fmt=None):
       U2 a type-hint trigger word meets an EXPLICIT default (the prose-derived type re-types the default one round
          late; with a negative number the function emitters then write un-parseable code);
       U3 `dictionary of` - class / pydantic (the probe of the guessed type raises on the second round);
-      U4 a default fragment on a parameter whose declared type is not int / float / str (Literal, bool, List ...).
+      U4 a default fragment on a parameter whose declared type is not int / float / str (Literal, bool, List ...);
+      U5 a default fragment whose value is glued to the odd ending `!` or `...)` (the other eight endings are stable).
     Default fragments at the end of a sentence / after a comma and trigger words without a default are STRICT."""
     import re
 
@@ -158,14 +159,18 @@ def param_taints(p, fmt=None):
         m = DEFAULT_FRAGMENT.search(doc)
         if m and (m.start() == 0 or re.match(r"\s+\w", doc[m.end():])):
             t.add("P47")
+        if m and re.search(r"(!|\.\.\.\))$", m.group(0)):
+            t.add("P47")  # U5 (measured): the fragment's value is glued to `!` or `...)` - of the ten odd endings only these two
         typ = p.get("typ") or ""
         inner = typ[9:-1] if is_optional(typ) else typ
         if m and inner not in ("int", "float", "str"):
             t.add("P47")  # U4: the fragment's value meets a declared type it cannot belong to (Literal, bool, List ...)
-        if any(tr in low for tr in TYPE_TRIGGERS) and "default" in p:
+        if any(tr in low for tr in TYPE_TRIGGERS) and ("default" in p or forced_default):
             t.add("P47")
         if "dictionary of" in low and fmt in (None, "class", "pydantic"):
             t.add("P47")
+        if gen_ir.third_word_slash(doc):
+            t.add("P47")  # U6: `word word int/float ...` - the ad-hoc slash syntax re-types the parameter (Union[int,float])
     d = p.get("default")
     if is_open("P12") and isinstance(d, str) and d != NoneStr and not d.startswith("(") and not gen_ir.is_plain_str(d):
         t.add("P12")  # hostile string default ('' / dots / quotes / leading blank / 'None' / digits ...)
@@ -191,7 +196,12 @@ def oracle(case):
     x = gen_ir.to_ir(case)
     normalised = False
     for fmt in case.get("formats") or FORMATS:
-        taints = {n: param_taints(p, fmt) for n, p in case["params"]}
+        taints, seen_default = {}, False
+        for n, p in case["params"]:
+            # google / numpydoc force a zero-value default onto every entry after the first defaulted one (P61's
+            # mechanism): there a trigger word meets a default even when the parameter itself declares none (U2)
+            taints[n] = param_taints(p, fmt, forced_default=seen_default and fmt in ("doc_google", "doc_numpydoc"))
+            seen_default = seen_default or "default" in p or bool(DEFAULT_FRAGMENT.search(p.get("doc") or ""))
         any_taint = set().union(*taints.values()) if taints else set()
         if not applicable(fmt, case):
             r.label("n/a:" + fmt)
